@@ -59,6 +59,7 @@ Fixpoint fR (e : fxQ) : fxRr :=
   | FQuadPert f a u c => FQuadPert (fR f) (Q2R a) (QR u) (Q2R c)
   | FInfConv f g => FInfConv (fR f) (fR g) | FDefConj f => FDefConj (fR f) | FBreg q => FBreg (fR q)
   | FSep2 k f g => FSep2 k (fR f) (fR g)
+  | FPair _ _ => FIndZero nzero       (* abstract pairs carry functions: outside the transfer theorems *)
   end.
 Definition eR (v : @ext Q) : @ext R := match v with EFin c => EFin (Q2R c) | EPInf => EPInf | EJunk => EJunk end.
 Definition rmap {A B} (f : A -> B) (r : res A) : res B := match r with Ok a => Ok (f a) | Err e => Err e end.
@@ -88,7 +89,7 @@ Qed.
 (* no square root is taken while evaluating e *)
 Fixpoint sqrt_free (e : fxQ) : bool :=
   match e with
-  | FLp P2 | FIndBall P2 | FIndZero _ => false
+  | FLp P2 | FIndBall P2 | FIndZero _ | FPair _ _ => false
   | FLp _ | FIndBall _ | FL2Sq | FConst _ | FHuber _ | FQuadS _ _ _ | FInfConv _ _ | FDefConj _ => true
   | FLeft _ f | FRight _ f | FRightVec _ f | FScalarSum f _ | FTransl f _ | FQuadPert f _ _ _ | FBreg f => sqrt_free f
   | FSum f g | FSep2 _ f g => sqrt_free f && sqrt_free g
@@ -167,6 +168,7 @@ Proof.
     rewrite !firstn_map, !skipn_map, <- (IHe1 H1), <- (IHe2 H2).
     destruct (value sq nzero e1 _ _); cbn [rbind rmap]; [|reflexivity].
     destruct (value sq nzero e2 _ _); cbn [rbind rmap]; [rewrite eR_eadd|]; reflexivity.
+  - discriminate.
 Qed.
 
 (* ---------------------------------------------------------------- cconj *)
@@ -176,6 +178,7 @@ Fixpoint vec_nz (e : fxQ) : Prop :=
   | FRightVec v f => Forall (fun a => ~ (a == 0)%Q) v /\ vec_nz f
   | FLeft _ f | FRight _ f | FScalarSum f _ | FTransl f _ | FQuadPert f _ _ _ | FDefConj f | FBreg f => vec_nz f
   | FSum f g | FInfConv f g | FSep2 _ f g => vec_nz f /\ vec_nz g
+  | FPair _ _ => False
   | _ => True
   end.
 
@@ -231,4 +234,5 @@ Proof.
   - (* FBreg *) apply IHe, Hnz.
   - (* FSep2 *) destruct Hnz as [H1 H2]. rewrite !firstn_map, !skipn_map, <- (IHe1 H1), <- (IHe2 H2).
     destruct (cconj _ e1); cbn [rbind rmap]; [|reflexivity]. destruct (cconj _ e2); reflexivity.
+  - contradiction.
 Qed.
